@@ -230,8 +230,61 @@ class Wrappers(Suite):
         acc[k] = acc.get(k, 0) + 1
 
 
+class Big(Suite):
+    """universes of tens of thousands of elements (complete mode and uniform permutations): element ids beyond 2^15; the delivered
+    rankings are handed to Coq with binary integers and checked to be partitions of the requested universe into non-empty buckets"""
+    name = "big"
+    imports = ["Rank", "Markov", "Judge.JC20"]
+    judge = "judge_big"
+    ctype = "Z * Z * nat * list (list (Z * Z + list Z))"
+
+    def gen(self, tier, rng):
+        cases = [{"n": 33000, "m": 1, "steps": 0, "mode": "complete", "seed": 2}, {"n": 33000, "m": 2, "steps": 20, "mode": "complete", "seed": 1},
+                 {"n": 33000, "m": 1, "steps": 3, "mode": "complete", "seed": 6}]
+        if tier == "thorough":
+            cases += [{"n": 40000, "m": 1, "steps": 0, "mode": "uniform", "seed": 3}, {"n": 70000, "m": 1, "steps": 50, "mode": "complete", "seed": 4}, {"n": 33000, "m": 3, "steps": 200, "mode": "complete", "seed": 5}]
+        return cases
+
+    def run(self, case):
+        import random
+        random.seed(case["seed"])
+        np.random.seed(case["seed"])
+        if case["mode"] == "uniform":
+            ds = Dataset.get_uniform_permutation_dataset(case["n"], case["m"])
+        else:
+            ds = Dataset.get_random_dataset_markov(case["n"], case["m"], case["steps"], True)
+        return {"rankings": [[[e.value for e in b] for b in r.buckets] for r in ds.rankings], "complete_flag": bool(ds.is_complete),
+                "nb_elements": ds.nb_elements}
+
+    def term(self, case, out):
+        lo = 1 if case["mode"] == "uniform" else 0
+        def compress(r):
+            items, i = [], 0
+            while i < len(r):
+                j = i
+                while j + 1 < len(r) and len(r[j]) == 1 and len(r[j + 1]) == 1 and r[j + 1][0] == r[j][0] + 1:
+                    j += 1
+                if j - i + 1 >= 8:
+                    items.append(f"(inl ({z(r[i][0])}, {z(j - i + 1)}))")
+                    i = j + 1
+                else:
+                    items.append("(inr " + clist([z(e) for e in r[i]]) + ")")
+                    i += 1
+            return clist(items)
+        rks = clist([compress(r) for r in out["rankings"]])
+        # the flags of the dataset are folded in: a wrong number of elements or a false completeness flag is encoded as a missing ranking
+        m = case["m"] if (out["complete_flag"] and out["nb_elements"] == case["n"]) else case["m"] + 1
+        return f"({z(lo)}, {z(case['n'])}, {nat(m)}, {rks})"
+
+    def nontrivial(self, case, out):
+        return True
+
+    def stats(self, case, out, acc):
+        acc[f"n={case['n']},m={case['m']},steps={case['steps']},{case['mode']}"] = 1
+
+
 if __name__ == "__main__":
-    main("C20", [Moves(), Walks(), Reach(), Wrappers()], gen_targets=["markov"],
+    main("C20", [Moves(), Walks(), Reach(), Wrappers(), Big()], gen_targets=["markov"],
          level_note="invariant proved for every move / every script (unbounded n, steps); randint/shuffle are inputs of the model "
                     "(scripted in the correspondence); n = 0 or m = 0 are outside the property's domain (n=0 makes numpy raise ValueError)",
          rule="moves: every dense vector of length <= 4 (thorough 5) x every element x the moves the code can apply to it (exhaustive); "
